@@ -62,7 +62,7 @@ CHECKS.update({
              note=EXEC_NOTE + "; traceback.TracebackException frame/line semantics modelled; KDeep excluded", technique="Coq proof (chain-instrumented specification, simulation sim3_all by induction on fuel) + vm_compute correspondence of full tracebacks + executing-chain oracle", design="6/C17"),
  "C03": dict(text="Coq proof that for every sequence of space/base/member edits the model's members equal the from-scratch re-derivation along the C3 order (plus name uniqueness, the C3 laws "
                   "and evaluation in the sub space), model tied to /repo after every operation by vm_compute correspondence on random and exhaustive small ordered-base DAGs. The pinned tree "
-                  "deviates on D1 D2 D2b D3 D34 (D23): recorded findings, triggers avoided, witnesses replayed (D33 repaired in /repo).",
+                  "deviated on D1 D2 D2b D3 D33 D34 (D23): all repaired in /repo, their former triggers are generated, their witnesses must pass.",
              note="trusted: Coq kernel + vm_compute, harness generator/emitter/driver, Defs/Check.v; modelled not verified: networkx (DAG test, traversal order), CPython; flat spaces, integer refs, "
                   "lambda:<int|refname> formulas; on_inherit idealised to read only defined members; outside: rename, nesting, dynamic spaces, is_cached/allow_none/refmode, value cache",
              technique="Coq refinement proof (induction over fold_left step; C3 by fuel induction) + vm_compute correspondence + Coq rederive oracle + Python frame oracle", design="6/C03"),
@@ -104,7 +104,7 @@ CHECKS.update({
                   "Coq, plus an implementation-only oracle including an edit-only replay differential.",
              note="trusted: hand-written Alive/Model.v, harness drivers/alive.py, Alive/Check.v; not modelled: C3 order, formulas (function of the name), space-level references, renaming, input values, "
                   "uncached cells (witnesses/corpus cases are (P)-only); ItemSpaces nested in ItemSpaces with shared precedents (harness/alivenest.py) are a (P)-only case class outside the model: "
-                  "must-die lists, deep reachability audit and edit-only replay differential on the implementation; generator avoids triggers of D14, C13a, C13c, C13e, D3; partial: alive_untouched for derived cells and remove_bases",
+                  "must-die lists, deep reachability audit and edit-only replay differential on the implementation; no recorded defect is avoided any more (D14 C13a C13c C13e D3 D21 D22 D23 repaired in /repo); NewCells whose definer depends on the C3 order is not drawn (not modelled); partial: alive_untouched for derived cells and remove_bases",
              technique="Coq invariant induction over fold_left step + vm_compute correspondence + implementation oracle (edit-only replay)", design="6/C13"),
  "C19": dict(text="Coq proof over a Gallina model of the model registry (dict, per-model names, the two AutoNamer counters, new/rename/_rename_samename/close/read/cur_model) that for all operation "
                   "sequences the registry maps unique valid names to the model of that name, no operation but close removes a model, a clashing model keeps its identity under <name>_BAKn, close "
@@ -136,13 +136,13 @@ CHECKS.update({
  "C11": dict(text="Machine-checked proof on a Gallina model of the name-level editing API: every rejected operation returns the identical state (any state, all 13 rejection reasons, incl. exact roll-back "
                   "of new_cells/new_space), and every history leaves the base relation acyclic with a C3 linearisation for every space and only valid identifiers as space and cells names; tied to "
                   "/repo on every run by executing the same histories in Coq and comparing outcome class and name maps after each operation, plus describe-before = describe-after oracle.",
-             note="trusted: Coq kernel + vm_compute, correspondence harness (nameslib.py, drivers/names.py); ideal model: /repo deviates on D3 D34 N8 (D11 D12 N4 N10 N11 repaired in /repo and generated) (witnesses replayed, triggers "
-                  "avoided); modelled not verified: which source texts are malformed (ast; one bit in the model), C3 from MX.C3; outside: cell values and inputs ((P) only)",
+             note="trusted: Coq kernel + vm_compute, correspondence harness (nameslib.py, drivers/names.py); ideal model: the pinned tree deviated on D3 D11 D12 D34 N4 N8 N10 N11, all repaired in /repo and generated (witnesses replayed, must pass"
+                  "); modelled not verified: which source texts are malformed (ast; one bit in the model), C3 from MX.C3; outside: cell values and inputs ((P) only)",
              technique="Coq induction over fold_left step with invariants (tree / closed bases / all-MRO-ok / valid names), C3 commuting with injective relabelling + vm_compute correspondence", design="6/C11"),
  "C12": dict(text="Machine-checked proof that in every reachable state cells, own references (defined or derived) and child spaces of a space are pairwise disjoint, that no operation can break this in any "
                   "sub space, and that dir() and name lookup of spaces and ItemSpaces equal the chained containers with own references before model-level ones and parameters before base references; "
                   "tied to /repo by the same histories with dir(), containers, getattr kinds and the library's self-checks observed after every operation.",
-             note="trusted: as C11; ideal model: /repo deviates on D13 D23 N2 N5 N7 (N1 N3 N6 N9 repaired in /repo and generated); modelled not verified: derived members are a view along the C3 order, ItemSpace observed at argument 0 "
+             note="trusted: as C11; ideal model: /repo deviates on D13 N2 (triggers avoided, witnesses replayed; D23 N1 N3 N5 N6 N7 N9 repaired in /repo and generated); modelled not verified: derived members are a view along the C3 order, ItemSpace observed at argument 0 "
                   "only; the lazy-container refresh is exercised by the tie, not modelled",
              technique="Coq name-disjointness invariant by induction with per-operation frame lemmas + vm_compute correspondence + self-check oracle", design="6/C12"),
 })
